@@ -96,3 +96,4 @@ def check(case):
 def shrink(case):
     yield from common.shrink_faults(case, ("main",))
     yield from common.shrink_tasks(case, {"main"})
+    yield from common.shrink_buffers(case, ("main",))
